@@ -152,3 +152,6 @@ Fixpoint mrun (sc : script) (m : mstate) (evs : list lev) : bool :=
 
 (* chronological log *)
 Definition P13 (sc : script) (evs : list lev) : bool := mrun sc (mkMS [] [] [] [] []) evs.
+
+(* the whole property, for every operation sequence: the chronological log of the event manager is accepted by the monitor *)
+Definition C13_monitor_statement : Prop := forall sc ops, P13 sc (rev (log (erun sc ops))) = true.
